@@ -43,3 +43,10 @@ func (n *Notes) Take() []NoteEv {
 	n.evs = nil
 	return out
 }
+
+// Len returns how many events were collected so far (and not yet taken).
+func (n *Notes) Len() int {
+	n.mu.Lock()
+	defer n.mu.Unlock()
+	return len(n.evs)
+}
